@@ -473,12 +473,33 @@ func runPrefix(hid int, p prefix, rng *rand.Rand, rec *Recorder, reps int) {
 				x, err := vars["r"].decode(unescape(op["s"].(string)))
 				vars["x"] = x
 				ev.Ok, ev.Sent = err == nil, sentinelsOf(err)
+			case "decode2":
+				y, err := vars["r"].decode(unescape(op["s"].(string)))
+				vars["y"] = y
+				ev.Ok, ev.Sent = err == nil, sentinelsOf(err)
 			case "set":
 				tgt := vars["x"]
 				if tgt == nil {
 					tgt = vars["r"]
 				}
 				tgt.setField(op["n"].(string), op["c"].(string))
+			case "setgroup":
+				tgt := vars["x"]
+				if tgt == nil {
+					tgt = vars["r"]
+				}
+				lo, hi := map[string][2]int{"B": {0, 8}, "T": {8, 11}, "E": {11, 22}}[op["g"].(string)][0], map[string][2]int{"B": {0, 8}, "T": {8, 11}, "E": {11, 22}}[op["g"].(string)][1]
+				if p.Fam == "v2" {
+					lo, hi = map[string][2]int{"B": {0, 6}, "T": {6, 9}, "E": {9, 14}}[op["g"].(string)][0], map[string][2]int{"B": {0, 6}, "T": {6, 9}, "E": {9, 14}}[op["g"].(string)][1]
+				}
+				for i := lo; i < hi; i++ {
+					d := defsOf(p.Fam)[i]
+					code := "?"
+					if op["c"].(string) != "?" {
+						code = d.Codes[0].Code
+					}
+					tgt.setField(d.Name, code)
+				}
 			}
 		}()
 		emit(op, ev)
